@@ -4,6 +4,8 @@ from vmon import gen
 from vmon.checks.common import obs, fail, both_views, random_prefix, apply_prefix
 
 EXTREMES = "seqs"   # worker re-labels every sixth case to the ends of the legal ranges (gen.extremify)
+SHUFFLE = "seqs"    # worker: every seventh case is built by add_absolute_message in shuffled order
+CANONICAL_ABS = True   # the function under test pairs / merges over the canonically sorted list (oracle.abs_order)
 PROP = "C15"
 MONITORS = ["merge"]
 INSITU = {"k": "merge or load or composition or tokenisation"}
@@ -37,7 +39,7 @@ def make_case(rng, i, tier):
         extra = []
         if rng.random() < 0.5:
             # signatures incl. pairs of equal quotient but different spelling (3/4 vs 6/8, 2/2 vs 4/4, 2/4 vs 4/8)
-            sig = rng.choice([(3, 4), (4, 4), (6, 8), (2, 2), (2, 4), (4, 8), (3, 2), (6, 4), (12, 8), (5, 4)])
+            sig = rng.choice([(3, 4), (4, 4), (6, 8), (2, 2), (2, 4), (4, 8), (3, 2), (6, 4), (12, 8), (5, 4), (8, 8), (8, 8)])   # 8/8: the library default
             extra.append(["ts", rng.choice([0, 24, 48, 72]), sig[0], sig[1]])
             if rng.random() < 0.3:
                 sig2 = rng.choice([(3, 4), (6, 8), (2, 2), (4, 4), (4, 8), (2, 4)])
